@@ -182,9 +182,9 @@ def _clone_derives(repo):
     return out, f"def c15CloneDerives : List String := {_lean_list(out)}"
 
 
-def _rs_files(repo):
+def _rs_files(repo, crate_src="minijinja/src"):
     import os
-    base = os.path.join(repo, "minijinja", "src")
+    base = os.path.join(repo, *crate_src.split("/"))
     out = []
     for d, _, fs in os.walk(base):
         for f in fs:
@@ -338,10 +338,46 @@ def _hidden_state(repo):
       field       a struct/enum field whose type is interior-mutable, or whose name says pool
       cow         a registry written through `Arc::make_mut(&mut self.x)`
       created-in  a function that creates an interior-mutable value (locals, struct literals)"""
+    rows = _hidden_rows(repo, "minijinja/src")
+    if not rows:
+        raise KeyError("hidden state")
+    return rows, f"def c15HiddenState : List String := {_lean_list(rows)}"
+
+
+def _strip_hooks(src):
+    """remove inline `#[cfg(feature = "verif_hooks")] (pub) mod x { … }` blocks (ours, off by default)"""
+    out = src
+    while True:
+        m = re.search(r'#\[cfg\(feature\s*=\s*"verif_hooks"\)\]\s*(?:pub(?:\([^)]*\))?\s+)?mod\s+\w+\s*\{', out)
+        if not m:
+            return out
+        i = out.index("{", m.start())
+        depth, j = 0, i
+        while j < len(out):
+            if out[j] == "{":
+                depth += 1
+            elif out[j] == "}":
+                depth -= 1
+                if depth == 0:
+                    break
+            j += 1
+        out = out[:m.start()] + out[j + 1:]
+
+
+def _hidden_rows(repo, crate_src):
     import os
     rows = []
-    for rel in _rs_files(repo):
-        src = _strip_tests(_nocomment(read(repo, os.path.join("minijinja/src", rel))))
+    for rel in _rs_files(repo, crate_src):
+        src = _strip_hooks(_strip_tests(_nocomment(read(repo, os.path.join(crate_src, rel)))))
+        # tuple variants / tuple structs that wrap an interior-mutable type: `Weak(Weak<Mutex<T>>)`
+        for em in re.finditer(r"\b(?:enum|struct)\s+(\w+)[^;{(]*\{", src):
+            try:
+                ebody = fn_body(src[em.start():], r"\b(?:enum|struct)\s+\w+[^;{(]*\{")
+            except Exception:
+                continue
+            for vm_ in re.finditer(r"(?m)^\s*(\w+)\s*\(([^()]*)\)\s*,?\s*$", ebody):
+                if re.search(_CELL, vm_.group(2)):
+                    rows.append(f"{rel}|field|{em.group(1)}.{vm_.group(1)}|{_kind_of(vm_.group(2))}")
         tl_spans = []
         for m in re.finditer(r"thread_local!\s*\{", src):
             body = fn_body(src[m.start():], r"thread_local!\s*\{")
@@ -381,10 +417,84 @@ def _hidden_state(repo):
             fns = list(re.finditer(r"\bfn\s+(\w+)", src[:m.start()]))
             fn = fns[-1].group(1) if fns else "-"
             rows.append(f"{rel}|created-in|{fn}|{_kind_of(m.group(1) + '<')}")
-    rows = sorted(set(rows))
-    if not rows:
-        raise KeyError("hidden state")
-    return rows, f"def c15HiddenState : List String := {_lean_list(rows)}"
+    return sorted(set(rows))
+
+
+@item("C15_HIDDEN_STATE_EXT")
+def _hidden_state_ext(repo):
+    """the same enumeration for the other two crates an application links with the engine:
+    minijinja-contrib (filters, tests, globals) and minijinja-autoreload (the reloader)"""
+    rows = [f"contrib:{r}" for r in _hidden_rows(repo, "minijinja-contrib/src")] + \
+           [f"autoreload:{r}" for r in _hidden_rows(repo, "minijinja-autoreload/src")]
+    return rows, f"def c15HiddenStateExt : List String := {_lean_list(rows)}"
+
+
+@item("C15_COMPILE_READS")
+def _compile_reads(repo):
+    """Everything a compile (`CompiledTemplate::new`) can depend on, as rows (what, values):
+      signature:<fn>        its parameters — name, source and `&TemplateConfig`; no environment, no state
+      call:<file>           the arguments of every call site (the configuration handed over is the store's
+                            CURRENT `template_config`, nothing cached elsewhere)
+      config-fields-read    the `config.<field>`s `_new_impl` reads (= every field of `TemplateConfig`)
+      other-receivers       anything else `_new_impl` reads through `self.`/`env.` (nothing)
+      compiler-imports      the crate modules the compiler modules and `syntax.rs` import
+      environment-mentions  compiler modules / `syntax.rs` that mention `Environment`, `State` of the VM, the
+                            loader or the registries (none)
+      hidden-state          the rows of C15_HIDDEN_STATE that live in the compiler modules, `syntax.rs`,
+                            `template.rs`: statics and pools a compile can touch"""
+    import os
+    tsrc = _strip_tests(_nocomment(read(repo, TEMPLATE)))
+    rows = []
+    for fn in ("new", "_new_impl"):
+        m = re.search(r"impl<'source> CompiledTemplate<'source>\s*\{", tsrc)
+        if not m:
+            raise KeyError("impl CompiledTemplate")
+        impl = fn_body(tsrc[m.start():], r"impl<'source> CompiledTemplate<'source>\s*\{")
+        fm = re.search(r"fn %s\s*\(([^)]*)\)" % fn, impl)
+        if not fm:
+            raise KeyError(f"CompiledTemplate::{fn}")
+        params = [re.sub(r"\s+", "", x) for x in fm.group(1).split(",") if x.strip()]
+        rows.append((f"signature:{fn}", params))
+    impl_body = fn_body(impl, r"fn _new_impl\s*\(")
+    rows.append(("config-fields-read", sorted(set(re.findall(r"\bconfig\s*\.\s*(\w+)", impl_body)))))
+    rows.append(("other-receivers", sorted(set(re.findall(r"\b(self|env|state)\s*\.", impl_body)))))
+    for rel in ("loader.rs", "environment.rs", "template.rs", "expression.rs", "vm/mod.rs", "vm/state.rs"):
+        try:
+            src = _strip_tests(_nocomment(read(repo, os.path.join("minijinja/src", rel))))
+        except Exception:
+            continue
+        calls = []
+        for cm in re.finditer(r"CompiledTemplate::new\s*\(", src):
+            depth, j = 0, cm.end() - 1
+            while j < len(src):
+                if src[j] == "(":
+                    depth += 1
+                elif src[j] == ")":
+                    depth -= 1
+                    if depth == 0:
+                        break
+                j += 1
+            calls.append(re.sub(r"\s+", "", src[cm.end():j]).rstrip(","))
+        if calls:
+            rows.append((f"call:{rel}", calls))
+    comp = [r for r in _rs_files(repo) if r.startswith("compiler" + os.sep) or r == "syntax.rs"]
+    imports, mentions = set(), []
+    for rel in comp:
+        src = _strip_tests(_nocomment(read(repo, os.path.join("minijinja/src", rel))))
+        src = re.sub(r'r(#+)"(?:.|\n)*?"\1', '""', src)   # doc examples in raw strings
+        for im in re.findall(r"\bcrate::(\w+)", src):
+            if im != "verif_hooks":
+                imports.add(im)
+        if re.search(r"\bEnvironment\b|\bcrate::vm\b|\bLoaderStore\b|\bTemplateStore\b|\bget_filter\b|\bget_test\b|\bget_global\b", src):
+            mentions.append(rel)
+    rows.append(("compiler-imports", sorted(imports)))
+    rows.append(("environment-mentions", sorted(mentions)))
+    hs = [r for r in _hidden_rows(repo, "minijinja/src")
+          if r.startswith("compiler/") or r.startswith("syntax.rs|") or r.startswith("template.rs|")]
+    rows.append(("hidden-state", hs))
+    lean = "def c15CompileReads : List (String × List String) := [" + ", ".join(
+        f"({lean_str(a)}, {_lean_list(b)})" for a, b in rows) + "]"
+    return rows, lean
 
 
 @item("C15_MEMO_MAP")
